@@ -456,6 +456,9 @@ char* caller_buf(const void* data, size_t n, Place pl, const char* like, size_t 
   if (n) memcpy(p, data, n);
   return p;
 }
+char* caller_raw(size_t n) {
+  return (char*)do_alloc(CALLER, n, PL_END, nullptr, 0, false);
+}
 void caller_release(char* p) {
   bool save = g_env.free_protect; g_env.free_protect = 1;
   free_(CALLER, p);
@@ -567,6 +570,7 @@ char* caller_buf(const void* data, size_t n, Place, const char*, size_t) {
   if (n) memcpy(p, data, n);
   return p;
 }
+char* caller_raw(size_t n) { return (char*)do_alloc(CALLER, n, false); }
 void caller_release(char* p) { free_(CALLER, p); g_ctr[C_CALLER_RELEASE]++; }
 void caller_free(char* p) { free_(CALLER, p); }
 size_t live_count(Provider p) { return g_live[p]; }
